@@ -638,6 +638,7 @@ char *macros_expand_params(
     if (ptr >= (int)sizeof(params) - 3 || count >= 255)
     {
       print_error(asm_context, "Macro parameters too long");
+      asm_context->error = 1;
       return nullptr;
     }
 
@@ -663,6 +664,7 @@ char *macros_expand_params(
     if (ch == '\n' || ch == EOF)
     {
       print_error(asm_context, "Macro expects ')'");
+      asm_context->error = 1;
       return nullptr;
     }
 
@@ -686,6 +688,7 @@ char *macros_expand_params(
   {
     printf("Error: Macro expects %d params, but got only %d at %s:%d.\n",
       param_count, count, asm_context->tokens.filename, asm_context->tokens.line);
+    asm_context->error = 1;
     return nullptr;
   }
 
